@@ -4,3 +4,4 @@ import FcGen.KSrcDir
 import FcGen.KSrcIdx
 import FcGen.KSrcPS
 import FcGen.KSrcGrp
+import FcGen.KSrcFam
